@@ -137,3 +137,127 @@ let c15 ?(model : ((err option -> bool) * (err option -> bool)) option) (path : 
   let cls = Hashtbl.fold (fun k v acc -> Printf.sprintf "\"%s\":%d" (json_escape k) v :: acc) classes [] in
   Printf.printf "{\"cases\":%d,\"gen_mismatch\":%d,\"text_mismatch\":%d,\"spec_violation\":%d,\"nats_values\":%d,\"nats_unrepresentable\":%d,\"classes\":{%s}}\n"
     !n !bad_gen !bad_text !bad_spec !nats !bad_nats (Stdlib.String.concat "," (List.sort compare cls))
+
+(* ---- C17 ---- *)
+let coqq_of_string (s : ostring) : q =
+  match Stdlib.String.split_on_char '/' s with
+  | [n; d] -> { qnum = coqz_of_string n; qden = pos_of_z (BZ.of_string d) }
+  | _ -> failwith ("bad rational " ^ s)
+
+let q_of_ints (n : int) (d : int) : q = { qnum = coqz_of_int n; qden = pos_of_z (BZ.of_int d) }
+
+type c17_model = {
+  m_cb_call : breaker -> z -> bool -> cbresult * breaker;
+  m_calc : bcfg -> z -> q -> z;
+}
+
+let c17 ?(model : c17_model option) (path : ostring) (mm : ostring) : unit =
+  let oc = open_out mm in
+  let n = ref 0 and bad_gen = ref 0 and bad_spec = ref 0 in
+  let classes = Hashtbl.create 16 in
+  let bump k = Hashtbl.replace classes k (1 + try Hashtbl.find classes k with Not_found -> 0) in
+  let report tag line why =
+    let r = if tag = "GEN" then bad_gen else bad_spec in
+    incr r;
+    if !r <= max_report then Printf.fprintf oc "%s %s | %s\n" tag line why in
+  (* float64 evaluation in Go vs exact rationals: relative 2^-40, absolute 2 ns *)
+  let rel = { qnum = coqz_of_int 1; qden = pos_of_z (BZ.shift_left BZ.one 40) } in
+  let abs = q_of_ints 2 1 in
+  let within cfg att res = backoff_withinb cfg att res rel abs in
+  (* jitter spread per configuration: both sides of the base must occur over many draws when Jitter > 0 *)
+  iter_lines path (fun _ line ->
+      let f = fields line in
+      if Array.length f > 0 then begin
+        incr n;
+        match f.(0) with
+        | "B" ->
+          let init = BZ.of_string f.(1) and maxb = BZ.of_string f.(2) in
+          let mult = coqq_of_string f.(3) and jit = coqq_of_string f.(4) in
+          let att = BZ.of_string f.(5) in
+          let res = coqz_of_string f.(6) in
+          let cfg = { b_InitialBackoff = coqz_of_z init; b_MaxBackoff = coqz_of_z maxb; b_BackoffMultiplier = mult; b_Jitter = jit } in
+          let mult_z = z_of_coqz mult.qnum and mult_d = z_of_pos mult.qden in
+          let huge = BZ.gt att (BZ.of_int 200) in
+          let cfg', att' =
+            if not huge then cfg, coqz_of_z att
+            else if BZ.geq (BZ.mul (BZ.of_int 2) mult_z) (BZ.mul (BZ.of_int 3) mult_d) && BZ.gt init BZ.zero then
+              (* Multiplier >= 3/2, Initial >= 1 ns, attempt > 200: Initial*Mult^n >= 1.5^200 > 2^63 exceeds every int64 cap, so base = MaxBackoff *)
+              ({ cfg with b_InitialBackoff = coqz_of_z maxb; b_BackoffMultiplier = q_of_ints 1 1 }, coqz_of_int 0)
+            else if BZ.equal mult_z mult_d || BZ.equal mult_z BZ.zero || BZ.equal init BZ.zero then
+              (* Multiplier 1 or 0, or Initial 0: the power is cheap to evaluate exactly / irrelevant *)
+              ((if BZ.equal init BZ.zero then { cfg with b_BackoffMultiplier = q_of_ints 1 1 } else cfg), coqz_of_z att)
+            else
+              (* remaining generated multipliers are <= 1/2: Initial*Mult^n is already below 2^-137 ns at n = 200
+                 and only shrinks; evaluate with attempt 200 *)
+              (cfg, coqz_of_int 200) in
+          let ok = within cfg' att' res in
+          bump (if huge then "backoff/huge-attempt" else if BZ.equal (z_of_coqz jit.qnum) BZ.zero then "backoff/no-jitter" else "backoff/jitter");
+          if not ok then report "SPEC" line "CalculateBackoff result outside +-Jitter of min(MaxBackoff, Initial*Multiplier^n) or negative";
+          (* without jitter the result is deterministic: compare the regenerated function value for value (float slack) *)
+          (match model with
+           | Some m when (not huge) && BZ.equal (z_of_coqz jit.qnum) BZ.zero ->
+             let g = z_of_coqz (m.m_calc cfg (coqz_of_z att) (q_of_ints 1 2)) and i = z_of_coqz res in
+             let tol = BZ.add (BZ.of_int 2) (BZ.shift_right (BZ.abs i) 40) in
+             if BZ.gt (BZ.abs (BZ.sub g i)) tol then
+               report "GEN" line (Printf.sprintf "CalculateBackoff without jitter: implementation %s, generated function %s" (BZ.to_string i) (BZ.to_string g))
+           | _ -> ())
+        | "K" ->
+          let thr = coqz_of_string f.(1) and cd = coqz_of_string f.(2) in
+          let steps = int_of_string f.(3) in
+          let cb0 = { cb_threshold = thr; cb_cooldown = cd; cb_st = CBClosed; cb_fail = Z0; cb_last = Z0 } in
+          let spec = ref cb0 and gen = ref cb0 and now = ref BZ.zero in
+          let opened = ref false and rejected = ref false in
+          for s = 0 to steps - 1 do
+            let b = 4 + 4 * s in
+            now := BZ.add !now (BZ.of_string f.(b));
+            let fails = f.(b + 1) = "1" in
+            let impl = f.(b + 2) and invoked = f.(b + 3) in
+            let (r, cb') = cb_spec_step !spec (coqz_of_z !now) fails in
+            spec := cb';
+            let rs = (match r with CROk -> "ok" | CRErr -> "err" | CRRejected -> "rej") in
+            if rs = "rej" then rejected := true;
+            if cb'.cb_st = CBOpen then opened := true;
+            if rs <> impl then report "SPEC" line (Printf.sprintf "breaker step %d: implementation %s, reference automaton %s" s impl rs);
+            if (impl = "rej") <> (invoked = "0") then report "SPEC" line (Printf.sprintf "breaker step %d: operation invoked=%s with result %s" s invoked impl);
+            (match model with
+             | Some m ->
+               let (r2, cb2) = m.m_cb_call !gen (coqz_of_z !now) fails in
+               gen := cb2;
+               let rs2 = (match r2 with CROk -> "ok" | CRErr -> "err" | CRRejected -> "rej") in
+               if rs2 <> impl then report "GEN" line (Printf.sprintf "breaker step %d: implementation %s, generated cb_call %s" s impl rs2)
+             | None -> ())
+          done;
+          bump (if !rejected then "breaker/rejected-while-open" else if !opened then "breaker/opened" else "breaker/stayed-closed")
+        | "R" ->
+          let maxa = coqz_of_string f.(1) in
+          let cfg = { b_InitialBackoff = coqz_of_string f.(2); b_MaxBackoff = coqz_of_string f.(3);
+                      b_BackoffMultiplier = coqq_of_string f.(4); b_Jitter = coqq_of_string f.(5) } in
+          let cancel_before = f.(6) = "1" in
+          let steps = int_of_string f.(7) in
+          let script = List.init steps (fun s ->
+              let res = (match f.(8 + 2 * s) with "o" -> FOk | "p" -> FPermanent | _ -> FTransient) in
+              { it_cancelled_before = (s = 0 && cancel_before); it_res = res; it_cancelled_in_wait = (f.(9 + 2 * s) = "1") }) in
+          let bar = 8 + 2 * steps in
+          let inv = int_of_string f.(bar + 1) and result = f.(bar + 2) in
+          let waits = Array.to_list (Array.sub f (bar + 3) (Array.length f - bar - 3)) in
+          let ((mn, mwaits), mres) = retry_loop maxa Z0 script in
+          let rec nat_to_int = function O -> 0 | S k -> 1 + nat_to_int k in
+          let mres_s = (match mres with ROk -> "ok" | RPermanent -> "perm" | RMaxAttempts -> "max" | RCancelled -> "cancelled" | RScriptEnd -> "scriptend") in
+          bump ("retry/" ^ mres_s);
+          if nat_to_int mn <> inv || mres_s <> result then
+            report "GEN" line (Printf.sprintf "RetryWithBackoff: implementation %d invocations/%s, model %d/%s" inv result (nat_to_int mn) mres_s);
+          (* property: at most MaxAttempts invocations *)
+          let maxi = BZ.to_int (z_of_coqz maxa) in
+          if maxi > 0 && inv > maxi then report "SPEC" line "more invocations than MaxAttempts";
+          (* property: each wait is the computed backoff of that attempt index *)
+          List.iteri (fun k wns ->
+              if not (within cfg (coqz_of_int k) (coqz_of_string wns)) then
+                report "SPEC" line (Printf.sprintf "wait %d (%s ns) is not the backoff of attempt %d" k wns k)) waits;
+          if List.length waits <> List.length mwaits && not (List.length waits = List.length mwaits - 1) then
+            report "GEN" line "RetryWithBackoff: number of completed waits differs from the model"
+        | _ -> ()
+      end);
+  close_out oc;
+  let cls = Hashtbl.fold (fun k v acc -> Printf.sprintf "\"%s\":%d" (json_escape k) v :: acc) classes [] in
+  Printf.printf "{\"cases\":%d,\"gen_mismatch\":%d,\"spec_violation\":%d,\"classes\":{%s}}\n"
+    !n !bad_gen !bad_spec (Stdlib.String.concat "," (List.sort compare cls))
